@@ -588,6 +588,22 @@ func (g *G) callFn(f *gvar, d int) string {
 	return f.name + "(" + strings.Join(args, ", ") + ")"
 }
 
+// recCalls emits the bounded call(s) of a recursion helper. With CallVia the helper is called through it,
+// several times in a row (recursive path, base path, recursive path): per-VM state left by one call must
+// not influence the next.
+func (g *G) recCalls(o *out, name string, n int, acc string) {
+	if g.o.CallVia == "" {
+		o.line(fmt.Sprintf("L(%d, %s(%d, %s))", g.lid(), name, n, acc))
+		return
+	}
+	if n > 40 {
+		n = 40
+	}
+	for _, k := range []int{n, 0, 2, 0} {
+		o.line(fmt.Sprintf("L(%d, %s(%s, %d, %s))", g.lid(), g.o.CallVia, name, k, acc))
+	}
+}
+
 type out struct {
 	sb  strings.Builder
 	ind int
@@ -930,7 +946,7 @@ func (g *G) genFuncDef(o *out, depth int) {
 		o.line("  }")
 		o.line(fmt.Sprintf("  return %s(n - 1, acc + n) + 1", name))
 		o.line("}")
-		o.line(fmt.Sprintf("L(%d, %s(%d, %s))", g.lid(), name, 1+g.pick(g.o.DeepRecursion), g.intLit()))
+		g.recCalls(o, name, 1+g.pick(g.o.DeepRecursion), g.intLit())
 		return
 	}
 	if kindOfFn == 1 {
@@ -984,13 +1000,13 @@ func (g *G) genFuncDef(o *out, depth int) {
 			o.line("  }")
 			o.line(fmt.Sprintf("  return %s(n - 1, acc + n)", name))
 			o.line("}")
-			o.line(fmt.Sprintf("L(%d, %s(%d, 0))", g.lid(), name, n))
+			g.recCalls(o, name, n, "0")
 			o.line("for hf in " + hold + " {")
 			o.line(fmt.Sprintf("  L(%d, hf())", g.lid()))
 			o.line("}")
 			return
 		}
-		o.line(fmt.Sprintf("L(%d, %s(%d, %s))", g.lid(), name, n, g.intLit()))
+		g.recCalls(o, name, n, g.intLit())
 		return
 	}
 	params := make([]string, arity)
